@@ -185,7 +185,7 @@ def run(ctx: Ctx) -> None:
                         src = src[:a] + src[b:]
             elif kind == 'illtyped':
                 edits = [('int', 'Missing'), (' -> int', ''), ('self.', 'self.zz_'), ('return ', 'return undefined_name + '), (': int', ''), ('(a)', '(a, a, a)'), ('[0]', '["k"]'), ('K(', 'K.nope('), ('def ', 'async def '),
-                         (' = ', ' += '), ('import', 'imprt')]
+                         (' = ', ' += '), ('import', 'imprt'), (': int', ': dict[int]'), ('-> int', '-> dict[str]'), (': int', ': list[int, str]'), (': str', ': tuple[()]')]
                 old, new = rnd.choice(edits)
                 if old in src:
                     src = src.replace(old, new, rnd.choice([1, 1, 5]))
